@@ -50,23 +50,6 @@ pub mod error {
 ///    "c-def0": {
 ///      "default": "",
 ///      "type": "string"
-///    },
-///    "dDef": {
-///      "default": "x y",
-///      "type": "string"
-///    },
-///    "e-null": {
-///      "type": [
-///        "string",
-///        "null"
-///      ]
-///    },
-///    "fNullDef": {
-///      "default": "x y",
-///      "type": [
-///        "string",
-///        "null"
-///      ]
 ///    }
 ///  }
 ///}
@@ -84,16 +67,6 @@ pub struct G {
     pub b_opt: ::std::option::Option<::std::string::String>,
     #[serde(rename = "c-def0", default)]
     pub c_def0: ::std::string::String,
-    #[serde(rename = "dDef", default = "defaults::g_d_def")]
-    pub d_def: ::std::string::String,
-    #[serde(
-        rename = "e-null",
-        default,
-        skip_serializing_if = "::std::option::Option::is_none"
-    )]
-    pub e_null: ::std::option::Option<::std::string::String>,
-    #[serde(rename = "fNullDef", default = "defaults::g_f_null_def")]
-    pub f_null_def: ::std::option::Option<::std::string::String>,
 }
 impl ::std::convert::From<&G> for G {
     fn from(value: &G) -> Self {
@@ -115,15 +88,6 @@ pub mod builder {
             ::std::string::String,
         >,
         c_def0: ::std::result::Result<::std::string::String, ::std::string::String>,
-        d_def: ::std::result::Result<::std::string::String, ::std::string::String>,
-        e_null: ::std::result::Result<
-            ::std::option::Option<::std::string::String>,
-            ::std::string::String,
-        >,
-        f_null_def: ::std::result::Result<
-            ::std::option::Option<::std::string::String>,
-            ::std::string::String,
-        >,
     }
     impl ::std::default::Default for G {
         fn default() -> Self {
@@ -131,9 +95,6 @@ pub mod builder {
                 a_req: Err("no value supplied for a_req".to_string()),
                 b_opt: Ok(Default::default()),
                 c_def0: Ok(Default::default()),
-                d_def: Ok(super::defaults::g_d_def()),
-                e_null: Ok(Default::default()),
-                f_null_def: Ok(super::defaults::g_f_null_def()),
             }
         }
     }
@@ -174,42 +135,6 @@ pub mod builder {
                 });
             self
         }
-        pub fn d_def<T>(mut self, value: T) -> Self
-        where
-            T: ::std::convert::TryInto<::std::string::String>,
-            T::Error: ::std::fmt::Display,
-        {
-            self.d_def = value
-                .try_into()
-                .map_err(|e| {
-                    format!("error converting supplied value for d_def: {}", e)
-                });
-            self
-        }
-        pub fn e_null<T>(mut self, value: T) -> Self
-        where
-            T: ::std::convert::TryInto<::std::option::Option<::std::string::String>>,
-            T::Error: ::std::fmt::Display,
-        {
-            self.e_null = value
-                .try_into()
-                .map_err(|e| {
-                    format!("error converting supplied value for e_null: {}", e)
-                });
-            self
-        }
-        pub fn f_null_def<T>(mut self, value: T) -> Self
-        where
-            T: ::std::convert::TryInto<::std::option::Option<::std::string::String>>,
-            T::Error: ::std::fmt::Display,
-        {
-            self.f_null_def = value
-                .try_into()
-                .map_err(|e| {
-                    format!("error converting supplied value for f_null_def: {}", e)
-                });
-            self
-        }
     }
     impl ::std::convert::TryFrom<G> for super::G {
         type Error = super::error::ConversionError;
@@ -220,9 +145,6 @@ pub mod builder {
                 a_req: value.a_req?,
                 b_opt: value.b_opt?,
                 c_def0: value.c_def0?,
-                d_def: value.d_def?,
-                e_null: value.e_null?,
-                f_null_def: value.f_null_def?,
             })
         }
     }
@@ -232,19 +154,7 @@ pub mod builder {
                 a_req: Ok(value.a_req),
                 b_opt: Ok(value.b_opt),
                 c_def0: Ok(value.c_def0),
-                d_def: Ok(value.d_def),
-                e_null: Ok(value.e_null),
-                f_null_def: Ok(value.f_null_def),
             }
         }
-    }
-}
-/// Generation of default values for serde.
-pub mod defaults {
-    pub(super) fn g_d_def() -> ::std::string::String {
-        "x y".to_string()
-    }
-    pub(super) fn g_f_null_def() -> ::std::option::Option<::std::string::String> {
-        ::std::option::Option::Some("x y".to_string())
     }
 }
